@@ -18,7 +18,7 @@ def _graph(labels, triples, rng, drop_attrs=False, np_lags=False):
     G = nx.MultiDiGraph()
     G.add_nodes_from(labels)
     for (u, v, lag) in triples:
-        attrs = {"lag": np.int64(lag) if np_lags else lag, "cmi": float(rng.integers(-40, 100)) / 16, "p_value": float(rng.integers(0, 17)) / 16}
+        attrs = {"lag": np.int64(lag) if np_lags else lag, "cmi": 0.0 if rng.random() < 0.1 else float(rng.integers(-40, 100)) / 16, "p_value": float(rng.integers(0, 17)) / 16}      # (exact zeros always present)
         if drop_attrs:
             for k in ("cmi", "p_value"):
                 if rng.random() < 0.3:
